@@ -72,19 +72,19 @@ Definition shadow2 (field : bytes) : list sent :=
 Definition users2 : list bytes := [str "bob"; str "dave"].
 Definition day (d : Z) : Z := (d * 86400)%Z.
 
-(* C43_fallback_success_iff, both sides, with the REAL Gallina sha256-crypt: right password on
+(* C43_fallback_success_iff (tree as it is), both sides, with the REAL Gallina sha256-crypt: right password on
    the last second before expiry; wrong password; first second of the expiry day *)
 Example C43_witness_fallback_sha256 :
   handler_sane (h2 "a") = true /\
-  r_out (auth_fallback_gen false (mkO false false) (h2 "a") (day 20001 - 1)%Z users2 (shadow2 hash_a) [])
+  r_out (auth_fallback_gen tree_fixed (mkO false false) (h2 "a") (day 20001 - 1)%Z users2 (shadow2 hash_a) [])
     = ORet PAM_SUCCESS /\
   fallback_legit (mkO false false) (h2 "a") (day 20001 - 1)%Z users2 (shadow2 hash_a) [] = true /\
-  r_out (auth_fallback_gen false (mkO false false) (h2 "b") (day 20001 - 1)%Z users2 (shadow2 hash_a) [])
+  r_out (auth_fallback_gen tree_fixed (mkO false false) (h2 "b") (day 20001 - 1)%Z users2 (shadow2 hash_a) [])
     = ORet PAM_AUTH_ERR /\
   (* use_first_pass: the stacked token "decoy" is the password, the prompt is not used *)
-  r_out (auth_fallback_gen false (mkO true false) (h2 "a") (day 20001 - 1)%Z users2 (shadow2 hash_a) [])
+  r_out (auth_fallback_gen tree_fixed (mkO true false) (h2 "a") (day 20001 - 1)%Z users2 (shadow2 hash_a) [])
     = ORet PAM_AUTH_ERR /\
-  r_out (auth_fallback_gen false (mkO false false) (h2 "a") (day 20001) users2 (shadow2 hash_a) [])
+  r_out (auth_fallback_gen tree_fixed (mkO false false) (h2 "a") (day 20001) users2 (shadow2 hash_a) [])
     = ORet PAM_ACCT_EXPIRED.
 Proof. vm_compute. repeat split; reflexivity. Qed.
 
@@ -95,7 +95,7 @@ Example C43_witness_locked :
     | Some ent => negb (match hd_error (s_pw ent) with Some 36 => true | _ => false end)
     | None => false
     end &&
-    outcome_eqb (r_out (auth_fallback_gen false (mkO false false) (h2 "a") 0%Z users2 (shadow2 f) []))
+    outcome_eqb (r_out (auth_fallback_gen tree_fixed (mkO false false) (h2 "a") 0%Z users2 (shadow2 f) []))
                 (ORet PAM_AUTH_ERR))
     [str "!" ++ hash_a; str "*" ++ hash_a; str "!"; str "*"; str "x"; []; str "!!"; str "*LK*"] = true /\
   forallb (fun f =>
@@ -103,40 +103,41 @@ Example C43_witness_locked :
     | Some ent => match classify (s_pw ent) with CInvalid => true | _ => false end
     | None => false
     end &&
-    outcome_eqb (r_out (auth_fallback_gen false (mkO false false) (h2 "a") 0%Z users2 (shadow2 f) []))
+    outcome_eqb (r_out (auth_fallback_gen tree_fixed (mkO false false) (h2 "a") 0%Z users2 (shadow2 f) []))
                 (ORet PAM_AUTH_ERR))
     [str "$1$saltsalt$qjXMvbEw8oaL.CzflDtaK/"; str "$5"; str "$7$x"; str " $6$a$b"] = true.
 Proof. vm_compute. split; reflexivity. Qed.
 
 (* only the FIRST shadow entry of a name counts, and /etc/passwd must know the account *)
 Example C43_witness_first_entry_and_passwd :
-  r_out (auth_fallback_gen false (mkO false false) (h2 "a") 0%Z users2
+  r_out (auth_fallback_gen tree_fixed (mkO false false) (h2 "a") 0%Z users2
            [mkS (str "dave") (str "!") None; mkS (str "dave") hash_a None] []) = ORet PAM_AUTH_ERR /\
-  r_out (auth_fallback_gen false (mkO false false) (h2 "a") 0%Z [str "bob"] (shadow2 hash_a) [])
+  r_out (auth_fallback_gen tree_fixed (mkO false false) (h2 "a") 0%Z [str "bob"] (shadow2 hash_a) [])
     = ORet PAM_USER_UNKNOWN /\
-  r_out (auth_fallback_gen false (mkO false true) (h2 "a") 0%Z users2 [] []) = ORet PAM_IGNORE.
+  r_out (auth_fallback_gen tree_fixed (mkO false true) (h2 "a") 0%Z users2 [] []) = ORet PAM_IGNORE.
 Proof. vm_compute. repeat split; reflexivity. Qed.
 
 (* yescrypt goes through the oracle table *)
 Definition yh : bytes := str "$y$j9T$LdJMENpBABJJ3hIHjB1Bi.$GFxnbKnR8WaEdBMGMctf6JGMs56hU5dYcy6UrKGWr62".
 Example C43_witness_yescrypt :
-  r_out (auth_fallback_gen false (mkO false false) (h2 "a") 0%Z users2 (shadow2 yh) [(yh, str "a")])
+  r_out (auth_fallback_gen tree_fixed (mkO false false) (h2 "a") 0%Z users2 (shadow2 yh) [(yh, str "a")])
     = ORet PAM_SUCCESS /\
-  r_out (auth_fallback_gen false (mkO false false) (h2 "b") 0%Z users2 (shadow2 yh) [(yh, str "a")])
+  r_out (auth_fallback_gen tree_fixed (mkO false false) (h2 "b") 0%Z users2 (shadow2 yh) [(yh, str "a")])
     = ORet PAM_AUTH_ERR /\
-  r_out (auth_fallback_gen false (mkO false false) (h2 "a") 0%Z users2 (shadow2 (removelast yh)) [(yh, str "a")])
+  r_out (auth_fallback_gen tree_fixed (mkO false false) (h2 "a") 0%Z users2 (shadow2 (removelast yh)) [(yh, str "a")])
     = ORet PAM_AUTH_ERR.
 Proof. vm_compute. repeat split; reflexivity. Qed.
 
-(* the tree as it is PANICS on a $5$ field whose hash field does not decode (sha-crypt 0.5.0
-   decode_sha256().unwrap()); with the guard of /verif/fixes/C43.patch it answers PAM_AUTH_ERR.
-   Either way: not a success. *)
+(* the originally pinned tree PANICKED on a $5$ field whose hash field does not decode (sha-crypt
+   0.5.0 decode_sha256().unwrap()); with the guard of /repo 054a9cd (/verif/fixes/C43.patch) the
+   module answers PAM_AUTH_ERR.  Either way: not a success.  The $6$ twin never panicked. *)
 Example C43_witness_sha256_panic :
   let bad := str "$5$rounds=1000$saltsalt$***" in
   r_out (auth_fallback_gen false (mkO false false) (h2 "a") 0%Z users2 (shadow2 bad) []) = OPanic /\
   r_out (auth_fallback_gen true (mkO false false) (h2 "a") 0%Z users2 (shadow2 bad) []) = ORet PAM_AUTH_ERR /\
   r_out (auth_fallback_gen false (mkO false false) (h2 "a") 0%Z users2
-           (shadow2 (str "$6$rounds=1000$saltsalt$***")) []) = ORet PAM_AUTH_ERR.
+           (shadow2 (str "$6$rounds=1000$saltsalt$***")) []) = ORet PAM_AUTH_ERR /\
+  tree_fixed = true /\ field_guard bad = false /\ field_guard hash_a = true.
 Proof. vm_compute. repeat split; reflexivity. Qed.
 
 (* ------------------------------------------------------------------ acct_mgmt *)
